@@ -23,7 +23,7 @@ structure Cfg where
   /-- `rollup.BaseSlot()`; 0 for compaction (`ctx.baseSlot` stays zero) -/
   baseSlot : Nat
   /-- `rollup.CalcSlot(rollup.GetTimestamp(·))`; identity for compaction -/
-  mapSlot : Slot → Slot
+  mapSlot : Nat → Nat
 
 def compactCfg : Cfg := { ratio := 1, baseSlot := 0, mapSlot := id }
 
@@ -31,13 +31,13 @@ def compactCfg : Cfg := { ratio := 1, baseSlot := 0, mapSlot := id }
 
 /-- metric-level context accumulated over the input blocks -/
 structure Prep where
-  fields : List (FieldId × FieldType)
-  srcStart : Slot
-  srcEnd : Slot
+  fields : List (Nat × FieldType)
+  srcStart : Nat
+  srcEnd : Nat
 
 /-- `if _, ok := ctx.targetFields.GetFromID(f.ID); !ok { append }` over one block's fields -/
-def addFields (acc : List (FieldId × FieldType)) (fs : List (FieldId × FieldType)) :
-    List (FieldId × FieldType) :=
+def addFields (acc : List (Nat × FieldType)) (fs : List (Nat × FieldType)) :
+    List (Nat × FieldType) :=
   fs.foldl (fun acc fm => match lookup acc fm.1 with
     | some _ => acc
     | none => acc ++ [fm]) acc
@@ -45,7 +45,7 @@ def addFields (acc : List (FieldId × FieldType)) (fs : List (FieldId × FieldTy
 /-- one iteration of the loop over `metricBlocks` in `prepare`. The Go code recognises the first
 block by `len(ctx.targetFields) == 0`. -/
 def prepareStep (p : Prep) (b : Block V) : Prep :=
-  let r : Slot × Slot :=
+  let r : Nat × Nat :=
     if p.fields.isEmpty then (b.start, b.stop)
     else (if p.srcStart > b.start then b.start else p.srcStart,
           if p.srcEnd < b.stop then b.stop else p.srcEnd)
@@ -56,20 +56,20 @@ def prepare (bs : List (Block V)) : Prep :=
 
 /-- insertion of one field meta into a list ordered by id (`sort.Slice(... ID < ID)`; the ids
 are distinct, so the order `sort.Slice` produces is unique) -/
-def insertField (x : FieldId × FieldType) : List (FieldId × FieldType) → List (FieldId × FieldType)
+def insertField (x : Nat × FieldType) : List (Nat × FieldType) → List (Nat × FieldType)
   | [] => [x]
   | y :: t => if x.1 < y.1 then x :: y :: t else y :: insertField x t
 
-def sortFields (l : List (FieldId × FieldType)) : List (FieldId × FieldType) :=
+def sortFields (l : List (Nat × FieldType)) : List (Nat × FieldType) :=
   l.foldr insertField []
 
 /-- insertion into an ascending duplicate-free id list (`roaring.Bitmap.Or` + ascending iteration) -/
-def insertId (x : SeriesId) : List SeriesId → List SeriesId
+def insertId (x : Nat) : List Nat → List Nat
   | [] => [x]
   | y :: t => if x < y then x :: y :: t else if x = y then y :: t else y :: insertId x t
 
 /-- `ctx.seriesIDs.Or(reader.GetSeriesIDs())` over all blocks, iterated ascending -/
-def unionIds (bs : List (Block V)) : List SeriesId :=
+def unionIds (bs : List (Block V)) : List Nat :=
   bs.foldl (fun acc b => b.seriesIds.foldl (fun acc s => insertId s acc) acc) []
 
 /-! ### `DownSamplingMultiSeriesInto` -/
@@ -85,8 +85,8 @@ def put (op : V → V → V) (acc : List (Nat × V)) (p : Nat) (v : V) : List (N
 over one decoder: `t` is the moving source slot, `n` the number of slots still to visit.
 `continue` for an empty slot or a negative target position, `break` when the target position
 runs past the target range. -/
-def feed (op : V → V → V) (cfg : Cfg) (tStart len : Nat) (vals : List (Slot × V)) :
-    List (Nat × V) → Slot → Nat → List (Nat × V)
+def feed (op : V → V → V) (cfg : Cfg) (tStart len : Nat) (vals : List (Nat × V)) :
+    List (Nat × V) → Nat → Nat → List (Nat × V)
   | acc, _, 0 => acc
   | acc, t, n + 1 =>
     match lookup vals t with
@@ -99,13 +99,13 @@ def feed (op : V → V → V) (cfg : Cfg) (tStart len : Nat) (vals : List (Slot 
 
 /-- third loop + `EmitDownSamplingValue`: positions that were never set (still `+Inf`) emit a
 zero bit, the others the value; the result is keyed by absolute target slot. -/
-def emit (acc : List (Nat × V)) (tStart len : Nat) : List (Slot × V) :=
+def emit (acc : List (Nat × V)) (tStart len : Nat) : List (Nat × V) :=
   (List.range len).filterMap (fun p => (lookup acc p).map (fun v => (p + tStart, v)))
 
 /-- `seriesMerger.merge` for one target field of one series: every input block that has the
 series and data for the field id is decoded over ITS slot range and fed, in input order. -/
-def mergeField (agg : FieldType → V → V → V) (cfg : Cfg) (tStart tEnd : Slot) (ty : FieldType)
-    (s : SeriesId) (f : FieldId) (bs : List (Block V)) : List (Slot × V) :=
+def mergeField (agg : FieldType → V → V → V) (cfg : Cfg) (tStart tEnd : Nat) (ty : FieldType)
+    (s : Nat) (f : Nat) (bs : List (Block V)) : List (Nat × V) :=
   let len := tEnd + 1 - tStart
   let acc := bs.foldl (fun acc b =>
     match b.fieldData s f with
